@@ -239,6 +239,9 @@ VARIABLES proto,       \* the negotiated protocol (fixed for the session)
           log,         \* events of the last step
           mon          \* monitor state of the whole history
 vars == <<proto, keepAlive, closed, over, initTaken, initFut, pingFut, acked, streams, inbox, timerFired, nexec, nin, gone, log, mon>>
+\* `log` only reports what the last step said; neither the next-state relation nor an invariant reads it,
+\* so mode M may identify states that differ in `log` alone (VIEW MView in the configuration)
+MView == <<proto, keepAlive, closed, over, initTaken, initFut, pingFut, acked, streams, inbox, timerFired, nexec, nin, gone, mon>>
 srvVars == <<proto, keepAlive, closed, over, initTaken, initFut, pingFut, acked, streams, timerFired, nexec>>
 
 NoStream == [live |-> FALSE, gen |-> 0, buf |-> 0, fed |-> 0, ended |-> FALSE]
